@@ -49,3 +49,7 @@ pub open spec fn nip01_matches(f: Seq<u8>, e: Seq<u8>) -> bool {
     &&& f_since(f) <= ev_created_at(e) <= f_until(f)
     &&& nip01_tags_ok(f, e)
 }
+// the duplicate-detection bit of a tag letter: A-Z -> 0..25, a-z -> 26..51 (one bit per letter, all distinct), anything else none
+pub open spec fn letter_bit(l: u8) -> Option<u64> {
+    if 65 <= l <= 90 { Some((l - 65) as u64) } else if 97 <= l <= 122 { Some((l - 97 + 26) as u64) } else { None }
+}
